@@ -6,7 +6,7 @@ mkdir -p $OUT
 ( cd $WT && git diff -- src > $OUT/patch.diff; cp demo_*.py SEED_NOTES.md $OUT/ 2>/dev/null; cp *.patch $OUT/ 2>/dev/null )
 ( cd $WT && PYTHONPATH=$WT/src /venv/bin/python demo_$PID.py >/dev/null 2>&1; echo "demo with change: exit $?" )
 if git -C /repo apply --check $OUT/patch.diff 2>/dev/null; then
-  ( cd $WT && git stash -q && PYTHONPATH=$WT/src /venv/bin/python demo_$PID.py >/dev/null 2>&1; echo "demo without change: exit $?"; git stash pop -q )
+  ( cd $WT && git apply -R $OUT/patch.diff && PYTHONPATH=$WT/src /venv/bin/python demo_$PID.py >/dev/null 2>&1; echo "demo without change: exit $?"; git apply $OUT/patch.diff )
   git -C /repo apply $OUT/patch.diff
   ( cd /verif && VERIF_JOBS=${JOBS:-8} ./check $PID --tier quick 2>&1 | grep -E "^VIOLATION|sig=|done:|KNOWN" | cut -c1-200 | head -${LINES_:-7} )
   git -C /repo checkout -- .
